@@ -722,8 +722,6 @@ Qed.
 Lemma leaf_eqb_refl : forall a, leaf_eqb a a = true.
 Proof. induction a; cbn; try reflexivity; try (rewrite !String.eqb_refl; reflexivity); assumption. Qed.
 
-Definition R0 (cls : string) (s : spelling) : leaf := resolve tables false FUEL cls s.
-
 Definition agree_clauses (cls op : string) (ss : list spelling) : bool :=
   supported tables cls ss && clause_single_algorithm cls op && clause_no_stub cls op && clause_not_coerced cls op.
 
@@ -732,15 +730,18 @@ Lemma spellings_agree_table :
                               op_classes) classes = true.
 Proof. vm_compute. reflexivity. Qed.
 
-Lemma all_same_leaf_pair : forall cls ss s1 s2, all_same_leaf tables cls ss = true ->
-  In s1 ss -> In s2 ss -> R0 cls s1 = R0 cls s2.
+Lemma all_same_leaf_pair : forall T cls ss s1 s2, all_same_leaf T cls ss = true ->
+  In s1 ss -> In s2 ss -> resolve T false FUEL cls s1 = resolve T false FUEL cls s2.
 Proof.
-  intros cls ss s1 s2 H H1 H2. destruct ss as [|s0 r]; [destruct H1|].
+  intros T cls ss s1 s2 H H1 H2. destruct ss as [|s0 r]; [destruct H1|].
   unfold all_same_leaf in H. rewrite forallb_forall in H.
-  assert (forall s, In s (s0 :: r) -> R0 cls s0 = R0 cls s) as A.
+  assert (forall s, In s (s0 :: r) -> resolve T false FUEL cls s0 = resolve T false FUEL cls s) as A.
   { intros s [E|Hs]; [subst; reflexivity|]. apply leaf_eqb_eq. apply H. exact Hs. }
   rewrite <- (A s1 H1), <- (A s2 H2). reflexivity.
 Qed.
+
+Lemma implb_elim : forall a b, implb a b = true -> a = true -> b = true.
+Proof. intros a b H Ha. subst. exact H. Qed.
 
 Lemma spellings_agree_partial_proof : forall cls op ss s1 s2,
   In cls classes -> In (op, ss) op_classes ->
@@ -750,10 +751,13 @@ Lemma spellings_agree_partial_proof : forall cls op ss s1 s2,
   resolve tables false FUEL cls s1 = resolve tables false FUEL cls s2.
 Proof.
   intros cls op ss s1 s2 Hc Ho Hs Ha Hb Hd H1 H2.
-  pose proof spellings_agree_table as T. rewrite forallb_forall in T. specialize (T cls Hc).
-  rewrite forallb_forall in T. specialize (T (op, ss) Ho). cbn [fst snd] in T.
-  unfold agree_clauses in T. rewrite Hs, Ha, Hb, Hd in T. cbn [andb implb] in T.
-  exact (all_same_leaf_pair cls ss s1 s2 T H1 H2).
+  pose proof spellings_agree_table as T.
+  pose proof (proj1 (forallb_forall _ _) T cls Hc) as T1.
+  pose proof (proj1 (forallb_forall _ _) T1 (op, ss) Ho) as T2.
+  apply (all_same_leaf_pair tables cls ss s1 s2); [|exact H1|exact H2].
+  apply (implb_elim _ _ T2). unfold agree_clauses.
+  change (fst (op, ss)) with op. change (snd (op, ss)) with ss.
+  rewrite Hs, Ha, Hb, Hd. reflexivity.
 Qed.
 
 (* refutation witnesses, one per clause *)
@@ -814,7 +818,7 @@ Proof.
   intros T ad fuel cls n name subs unary Haf Hn Hns Hat Hin.
   cbn [resolve]. rewrite Hn, Haf.
   destruct subs as [|s0 subs].
-  - rewrite (Hns eq_refl), Hat. cbn [andb]. destruct unary.
+  - rewrite (Hns eq_refl). Show. rewrite Hat. cbn [andb]. destruct unary.
     + cbn [resolve]. rewrite Hat, Hin. reflexivity.
     + reflexivity.
   - rewrite Hat. cbn [andb]. destruct unary.
